@@ -611,7 +611,14 @@ async fn run_task(sh: Rc<Shared>, id: usize, spec: String) {
                 let c1 = Instant::now();
                 let v = match first {
                     Poll::Ready(v) => v,
-                    Poll::Pending => f.await,
+                    Poll::Pending => {
+                        if j == 0 {
+                            sh.waiting.borrow_mut().insert(id, start);
+                        }
+                        let v = f.await;
+                        sh.waiting.borrow_mut().remove(&id);
+                        v
+                    }
                 };
                 sh.judge(&format!("{spec} tick {j}"), v);
                 // aligned to start + k * period, exactly
@@ -852,9 +859,13 @@ fn run_ivx(drv: &str, s_ago: u64, p: u64) -> RtOut {
                 let rem = next_rel.as_nanos() % period.as_nanos();
                 let tol = 50_000_000u128;
                 if !(rem <= tol || period.as_nanos() - rem <= tol) {
+                    // is the offset a multiple of 2^64 ns (the `as u64` truncation of the remainder)?
+                    let two64 = 1u128 << 64;
+                    let r64 = rem % two64;
+                    let trunc = rem >= two64 - tol && (r64 <= tol || two64 - r64 <= tol);
                     out.failures.push((
-                        "C09:interval-misaligned".into(),
-                        format!("interval_at(now - {s_ago}s, {p}s): second tick {secs}s after start, not a multiple of the period (u64 truncation of the remainder)"),
+                        if trunc { "C09a:interval-u64-truncation".into() } else { "C09:interval-misaligned".into() },
+                        format!("interval_at(now - {s_ago}s, {p}s): second tick {secs}s after start, not a multiple of the period{}", if trunc { " but off by a multiple of 2^64 ns" } else { "" }),
                     ));
                 }
                 if ct > period + Duration::from_millis(50) || m0 < c0 {
@@ -940,9 +951,10 @@ fn gen_wheel_case(rng: &mut Rng) -> Vec<String> {
     let mut ops_in_cell = 0;
     let n_ops = rng.range(4, 28);
     // rarely: start next to the generation overflow
+    let mut generation = 0u64;
     if rng.chance(1, 12) {
-        let back = rng.below(4);
-        lines.push(format!("setgen {}", u64::MAX - back));
+        generation = u64::MAX - rng.below(4);
+        lines.push(format!("setgen {generation}"));
     }
     for _ in 0..n_ops {
         if ops_in_cell >= 6 {
@@ -964,8 +976,10 @@ fn gen_wheel_case(rng: &mut Rng) -> Vec<String> {
                     _ => t + rng.range(100, 100_000),
                 };
                 lines.push(format!("ins {d}"));
-                if d > t {
+                if d > t && generation < u64::MAX {
+                    // (at u64::MAX the insert panics and hands out no key)
                     n_handles += 1;
+                    generation += 1;
                 }
             }
             7..=9 if n_handles > 0 => lines.push(format!("upd {} {}", rng.below(n_handles), rng.below(N_WAKERS as u64))),
@@ -1097,6 +1111,8 @@ fn generate(tier: &str, rng: &mut Rng) -> Vec<Case> {
 }
 
 fn main() {
+    // expected panics (generation overflow, Instant overflow) are caught and reported per line
+    std::panic::set_hook(Box::new(|_| {}));
     gen_word_index();
     run_harness(
         generate,
